@@ -69,3 +69,54 @@ def c14_steps(tier):
 PROPS["C14"] = dict(level="exploration", steps=c14_steps, replay_variant={"C14/frame": "bubble", "C14/block": "default"}, assumptions=TRUST)
 PROPS["C15"] = dict(level="fault_enumeration", steps=simple("^TestC15", shards_quick=2), assumptions=TRUST)
 PROPS["C18"] = dict(level="exploration", steps=simple("^TestC18"), assumptions=TRUST)
+PROPS["C07"] = dict(level="exploration", steps=simple("^TestC07", variant="bubble", shards_quick=2, journal=True), default_variant="bubble", assumptions=TRUST + [
+    "testing/synctest (Go 1.26.8) for 'never blocks forever' and leaked goroutines; runtime.MemStats.TotalAlloc as the allocation meter"])
+PROPS["C20"] = dict(level="exploration", steps=simple("^TestC20", shards_quick=4), needs_lz4c=True, assumptions=TRUST + ["/bin/sh and the filesystem of the sandbox (permission bits are compared under umask 0)"])
+
+# ---- texts for MANIFEST.json (level, note, technique) ----
+META = {
+ "C01": ("rapid PBT, round trip + independent reference decoder",
+         "Sampled search over the segment grammar and all compressor entry points / depths, on reused compressors; every emitted block is also decoded by an independent byte-at-a-time decoder. Sampling, not proof: the input space is unbounded."),
+ "C02": ("rapid PBT over the option matrix x delivery x reader, round-trip oracle",
+         "Sampled search over options x input sizes around the block size x Write/Flush partitions or ReadFrom x reader configurations; oracle is the round trip plus a clean, repeatable end of stream. Legacy+Flush kernel-trailer ambiguity is a recorded known finding."),
+ "C03": ("rapid PBT with guard-page arenas and canaries; assembly in process, portable decoder in a noasm twin process",
+         "Block grammar / mutated compressor output / random / corpus inputs decoded with src, dst and dict flush against PROT_NONE pages and canaried spare capacity, in both builds; a fault becomes a recoverable panic (SetPanicOnFault). Sampling of an unbounded space."),
+ "C04": ("rapid PBT, differential against an independent block decoder + metamorphic prefill relation",
+         "Every case is judged by an independent decoder written from the block format (OK => same bytes, listed error classes => error), decoded three times over different prior destination contents, in both builds."),
+ "C05": ("structure-map mutation testing of valid frames against an independent frame parser",
+         "Whenever the Reader reports a clean end of stream on a mutated frame, the independent frame implementation must accept exactly the consumed bytes with identical output. One-directional by design (rejecting is always allowed)."),
+ "C06": ("crash-point enumeration: every prefix of generated frames x 6 reader configurations",
+         "All prefix lengths of small frames (every option combination) and every structural boundary +-3 plus sampled interior points of larger ones are read with 6 reader configurations. Exhaustive per generated frame, sampled over frames."),
+ "C07": ("rapid PBT of hostile inputs in synctest bubbles, allocation meter, journaled crash-class inputs; thorough adds the full 2^32 first-word enumeration",
+         "Random / mutated / hostile-field / skippable / deep-repetition inputs; termination and leaked goroutines decided by synctest bubbles, process death caught through a journaled case, allocation by MemStats. Thorough enumerates all 2^32 first words through ValidFrameHeader."),
+ "C08": ("stateful PBT of concurrent Writer/Reader histories in synctest bubbles with generated hook-site schedules, pool poisoning, race detector",
+         "Legal histories on concurrent objects run in bubbles (deadlock / leak detection is deterministic for channel blocking) with drawn delays at 17 hook sites, poisoned pool buffers, differential against the sequential Writer, and the same campaign under the race detector and with GOMAXPROCS 1/2/16. Schedules are sampled."),
+ "C09": ("rapid PBT, conformance oracle = independent strict frame parser (and golden files from the reference CLI validate that parser)",
+         "Every emitted byte stream (Writer.Write/ReadFrom, CompressingReader) must be exactly one strictly valid frame per an independent implementation of the frame specification, incl. inputs constructed so that a block's or the content's XXH32 is 0 and incompressible legacy blocks."),
+ "C10": ("rapid PBT with an independent strict block validator",
+         "Every positive result of any compressor, including partial successes into short destinations, is checked against the strictest reading of the block format (end-of-block rules) and strictly decoded."),
+ "C11": ("destination-length enumeration per generated source in guard arenas with canaries",
+         "For each generated source every destination length 0..bound+2 (small sources) or boundary classes (large) x spare capacity is tried with the destination in a guard arena; contract clauses are checked one by one."),
+ "C12": ("differential PBT: assembly decoder vs portable decoder (noasm twin process) on the same case stream",
+         "The two build configurations are compared on identical generated cases (outcome, n, bytes). Only amd64 assembly vs portable can be compared in this sandbox."),
+ "C13": ("PBT + exhaustive tables against an independent XXH32; 4 GiB streams across the 2^32 boundary",
+         "One-shot: all lengths 0..300 and generated data; streaming: generated op lists plus the complete (buffered 0..15 x next length) table; totals walked byte by byte across 2^32 (and 2^33)."),
+ "C14": ("metamorphic PBT (fresh vs reused vs pooled-under-load compressors; sequential vs concurrent / partitioned / scheduled Writers)",
+         "Outputs of runs that differ only in history, pool state, schedule, concurrency or Write partition must be byte-identical; pooled buffers are poisoned with a per-release pattern; frame half runs in bubbles."),
+ "C15": ("fault-index enumeration on sink and source",
+         "For each generated configuration every call index on the sink (and on the source) fails in turn (transient/persistent, partial writes); the error must surface as the injected one and prefixes must hold; fragmentation patterns must not change results."),
+ "C16": ("rapid PBT over frames built by an independent dependent-block encoder",
+         "Content is known by construction and cross-checked by the independent parser; matches reach across up to dozens of blocks at offsets up to 65535, with raw blocks in between; every reader configuration."),
+ "C17": ("model-based stateful testing: exhaustive short call sequences + rapid histories, in synctest bubbles, differential against fresh objects",
+         "Every call sequence up to length 4 (5) over a 12/10-call alphabet plus random histories are compared with a reference model of the life cycle; Reset-indistinguishability is checked byte-for-byte against really fresh objects; hangs and leaks by bubbles."),
+ "C18": ("rapid PBT over Read-size sequences with the strict frame parser as oracle",
+         "Per-call contract (bounds, progress, nothing beyond len(p)) and whole-stream conformance for generated buffer-size sequences aimed at the overflow-buffer states, with fragmenting / failing sources."),
+ "C19": ("exhaustive enumeration of all 2^25 headers against an independent oracle",
+         "The complete descriptor x layout x checksum-byte space is enumerated through ValidFrameHeader (and Reader.Read+Size on all well-checksummed headers and a sample of the others); non-magic first words enumerated around the reserved values."),
+ "C20": ("PBT over files x flags through the built binary, differential against the library Writer",
+         "The lz4c binary is built from the working tree and run on generated files and flag sets; outputs are judged by the independent frame parser, by the usage text, by byte equality with the library Writer (for -l) and by a full compress/uncompress cycle incl. permission bits."),
+}
+for _pid, (_tech, _text) in META.items():
+    if _pid in PROPS:
+        PROPS[_pid].setdefault("technique", _tech)
+        PROPS[_pid].setdefault("level_text", _text)
